@@ -596,8 +596,16 @@ func (w *Walker) evalCall(call *ast.CallExpr, st *State, nres int) []callRes {
 	recvs, args, sts := w.evalCallOperands(call, st)
 	var out []callRes
 	for i, s := range sts {
-		for _, at := range args[i] {
+		for ai, at := range args[i] {
 			if at != nil && at.Fun != nil && w.Fn.Pkg.PkgPath == modPath {
+				// a side-effect-free predicate handed to one of the standard library's filters: the filter calls it any
+				// number of times, which changes nothing; a deleting filter rewrites its first argument
+				if f, ok := obj.(*types.Func); ok && f.Pkg() != nil && (f.Pkg().Path() == "slices" || f.Pkg().Path() == "maps" || f.Pkg().Path() == "sort") && at.Fun.Lit != nil && pureLiteral(w.info, at.Fun.Lit) {
+					if strings.HasPrefix(f.Name(), "Delete") && ai > 0 && args[i][0] != nil && args[i][0].K == KField {
+						applyKill(s, locOf(args[i][0].Name), KillAny, nil)
+					}
+					continue
+				}
 				// the callee may call it any number of times: its effects are not accounted for
 				w.undecided(call, "a function value is handed to a function outside the module")
 			}
@@ -1542,4 +1550,51 @@ func (w *Walker) bindCountedKey(id *ast.Ident, table *Term, st *State, loopID st
 	k := mkTerm(KLocal, "rangekey:"+loopID+":"+table.S)
 	k.Reads = nil
 	w.bindLocal(id, k, st)
+}
+
+// pureLiteral: the function literal assigns only to its own locals and calls nothing but builtins and getters (methods of
+// interface values) — it can be run any number of times without a trace.
+func pureLiteral(info *types.Info, lit *ast.FuncLit) bool {
+	pure := true
+	local := func(e ast.Expr) bool {
+		id, ok := ast.Unparen(e).(*ast.Ident)
+		if !ok {
+			return false
+		}
+		obj := info.ObjectOf(id)
+		return obj != nil && obj.Pos() >= lit.Pos() && obj.Pos() <= lit.End()
+	}
+	ast.Inspect(lit.Body, func(n ast.Node) bool {
+		switch x := n.(type) {
+		case *ast.AssignStmt:
+			for _, lhs := range x.Lhs {
+				if !local(lhs) {
+					pure = false
+				}
+			}
+		case *ast.IncDecStmt:
+			if !local(x.X) {
+				pure = false
+			}
+		case *ast.GoStmt, *ast.DeferStmt, *ast.SendStmt:
+			pure = false
+		case *ast.CallExpr:
+			if tv, ok := info.Types[x.Fun]; ok && tv.IsType() {
+				return true
+			}
+			if id, ok := ast.Unparen(x.Fun).(*ast.Ident); ok {
+				if _, isB := info.Uses[id].(*types.Builtin); isB && id.Name != "delete" && id.Name != "clear" && id.Name != "copy" && id.Name != "panic" && id.Name != "append" {
+					return true
+				}
+			}
+			if sel, ok := ast.Unparen(x.Fun).(*ast.SelectorExpr); ok {
+				if sl := info.Selections[sel]; sl != nil && sl.Kind() == types.MethodVal && types.IsInterface(sl.Recv()) && len(x.Args) == 0 {
+					return true // a getter of a payload / block interface
+				}
+			}
+			pure = false
+		}
+		return pure
+	})
+	return pure
 }
